@@ -119,6 +119,7 @@ def run_sequences(job):
         foreign = Key(rng.randrange(1, ref.N), network=network)
         rec_steps = []
         err = None
+        seen = {}
         for a in steps:
             j = a['j'] - 1
             try:
@@ -134,18 +135,25 @@ def run_sequences(job):
                     # change the field in the raw bytes (pos selects the new value), then parse
                     f = a['f']
                     raw = bytearray(t.raw())
+                    def fresh(key, old, wanted):
+                        # a value this field never had in this trace (going back would make the signatures valid again)
+                        had = seen.setdefault(key, {old})
+                        had.add(old)
+                        for c in [wanted, (old + 1) % 2 ** 32, (old + 2) % 2 ** 32, (old + 3) % 2 ** 32, 77, 78, 79, 80]:
+                            if c not in had:
+                                had.add(c)
+                                return c
                     if f == 'version':
                         old = int.from_bytes(raw[0:4], 'little')
-                        newv = [0, old + 1, 0xffffffff][a['pos'] - 1]
-                        raw[0:4] = (newv if newv != old else old + 2).to_bytes(4, 'little')
+                        raw[0:4] = fresh('version', old, [0, old + 1, 0xffffffff][a['pos'] - 1]).to_bytes(4, 'little')
                     elif f == 'locktime':
                         old = int.from_bytes(raw[-4:], 'little')
-                        newv = [0, old + 1, 0xffffffff][a['pos'] - 1]
-                        raw[-4:] = (newv if newv != old else old + 2).to_bytes(4, 'little')
+                        raw[-4:] = fresh('locktime', old, [0, old + 1, 0xffffffff][a['pos'] - 1]).to_bytes(4, 'little')
                     elif f == 'sequence':
-                        seqb = (0xfffffffd).to_bytes(4, 'little')          # every input was built with this sequence
-                        at = bytes(raw).find(seqb)
-                        raw[at:at + 4] = [(0).to_bytes(4, 'little'), (0xfffffffe).to_bytes(4, 'little'), (0xffffffff).to_bytes(4, 'little')][a['pos'] - 1]
+                        cur = inp.sequence
+                        at = bytes(raw).find(inp.prev_txid[::-1] + inp.output_n[::-1])      # the outpoint of input j
+                        at = bytes(raw).find(cur.to_bytes(4, 'little'), at + 36)
+                        raw[at:at + 4] = fresh(('sequence', j), cur, [0, 0xfffffffe, 0xffffffff][a['pos'] - 1]).to_bytes(4, 'little')
                     else:
                         vb = int(t.outputs[0].value).to_bytes(8, 'little')
                         at = bytes(raw).find(vb)
@@ -158,16 +166,26 @@ def run_sequences(job):
                     if f == 'out.value':
                         t.outputs[0].value += 1
                     elif f == 'out.script':
-                        t.outputs[1].lock_script = b'\x52' if t.outputs[1].lock_script == b'\x51' else b'\x51'
+                        # never back to a value it had before (the signatures would be valid again)
+                        t.outputs[1].lock_script = bytes([t.outputs[1].lock_script[0] + 1])
                     elif f == 'outpoint':
                         inp.output_n = ((int.from_bytes(inp.output_n, 'big') + 1) % 2 ** 32).to_bytes(4, 'big')
                         inp.output_n_int = int.from_bytes(inp.output_n, 'big')
                     elif f == 'sequence':
-                        inp.sequence ^= 1
+                        had = seen.setdefault(('sequence', j), {inp.sequence})
+                        had.add(inp.sequence)
+                        inp.sequence = next(c for c in range(0xfffffff0, 0xfffffff0 - 40, -1) if c not in had)
+                        had.add(inp.sequence)
                     elif f == 'locktime':
-                        t.locktime += 1
+                        had = seen.setdefault('locktime', {t.locktime})
+                        had.add(t.locktime)
+                        t.locktime = next(c for c in range(1000, 1040) if c not in had)
+                        had.add(t.locktime)
                     elif f == 'version':
-                        t.version_int += 1
+                        had = seen.setdefault('version', {t.version_int})
+                        had.add(t.version_int)
+                        t.version_int = next(c for c in range(3, 43) if c not in had)
+                        had.add(t.version_int)
                         t.version = t.version_int.to_bytes(4, 'big')
                     elif f == 'amount':
                         inp.value += 1
